@@ -77,7 +77,7 @@ class FragCheck:
             v["stratum"] = stratum
             if self.classify:
                 try:
-                    v["mechanism"] = self.classify(v, case, rng)
+                    v["mechanism"] = self.classify(v, case, self.reeval)
                 except Exception:
                     v["mechanism"] = None
                     v["classifier_error"] = traceback.format_exc()[-300:]
@@ -86,6 +86,16 @@ class FragCheck:
             out["samples"].append({"src": case.src, "features": case.features,
                                    "accepting_executions": len(case.execs),
                                    "example_execution": frag.slim_exec(case.execs[0])})
+
+    def reeval(self, prog, version, exec_slim):
+        """Re-run tealer and the check on `prog` for one given input; returns {(kind, ckey)} of violations."""
+        rng = random.Random(0)
+        case = frag.build(prog, version, rng, want_execs=True,
+                          forced_inputs=[(exec_slim["group"], exec_slim["own"])])
+        if not case.execs:
+            return None  # the rewrite did not preserve acceptance of the witness: not a valid counterfactual
+        viols, _ = self.evaluate(case, frag.Ctr(), rng)
+        return set((v["kind"], v.get("ckey")) for v in viols)
 
     def run_batch(self, spec):
         common.import_tealer()
